@@ -262,12 +262,22 @@ Proof.
   unfold usize_rr, usize_rdata. rewrite Ed, Hdec, (fields_size_link _ _ f Hfw), Hpick. lia.
 Qed.
 
+(* ---- the address of ECS and APL: the specification's count is the encoder's ---- *)
+Lemma usize_addr_significant_eq : forall oct : bytes, usize_addr_significant oct = addr_significant oct.
+Proof.
+  induction oct as [|b r IH]; [symmetry; apply addr_significant_nil|].
+  rewrite addr_significant_cons. cbn [usize_addr_significant]. rewrite IH. reflexivity.
+Qed.
+Lemma usize_addr_cut_eq (least : N) (a : addr) :
+  usize_addr_cut least a = lenN (takeN (N.max (addr_significant (a_oct a)) least) (a_oct a)).
+Proof. unfold usize_addr_cut. rewrite usize_addr_significant_eq, lenN_takeN. reflexivity. Qed.
+
 (* ---- OPT ---- *)
 Lemma lenN_opt_wire (o : ednsopt) : opt_valid o -> lenN (opt_wire o) = usize_option o.
 Proof.
   intros V. rewrite opt_wire_len. destruct o as [e|c|n]; cbn [opt_body usize_option opt_valid] in *.
   - destruct V as [[W _] _]. destruct (ecs_body_len e W) as [-> _].
-    unfold ecs_cut, usize_addr_cut. rewrite lenN_takeN. reflexivity.
+    rewrite usize_addr_cut_eq. reflexivity.
   - unfold cookie_body. rewrite ListN.lenN_app. destruct (c_server c); [reflexivity|reflexivity].
   - rewrite lenN_zeros, N2Nat.id. reflexivity.
 Qed.
@@ -293,8 +303,8 @@ Qed.
 (* ---- APL ---- *)
 Lemma lenN_apitem_wire (i : apitem) : lenN (apitem_wire i) = usize_apitem i.
 Proof.
-  unfold apitem_wire, usize_apitem, apl_cut, usize_addr_cut.
-  rewrite !ListN.lenN_app, lenN_takeN, lenN_u16b, !lenN_u8b. lia.
+  unfold apitem_wire, usize_apitem, apl_cut. rewrite usize_addr_cut_eq, N.max_0_r.
+  rewrite !ListN.lenN_app, lenN_u16b, !lenN_u8b. lia.
 Qed.
 
 Theorem encT_rr_apl (r : rr) : apl_rr_wf r = true -> encT (enc_rr r) (usize_rr r).
